@@ -45,3 +45,6 @@ TYPES += [
     dict(name="TupleIns", src="src/instruction/tuple.rs", path=[("struct", "Tuple")],
          rewrites=[("pub struct Tuple", "pub struct TupleIns")]),
 ]
+TYPES += [
+    dict(name="LocalVariable", src="src/instruction/local_variable.rs", path=[("enum", "LocalVariable")]),
+]
